@@ -2,5 +2,6 @@ SPECIFICATION Spec
 CONSTANT MaxCuts = 2
 CONSTANT DocIds = {"d1", "d2", "d3", "d4", "d5", "d6"}
 INVARIANT Transparent
+INVARIANT CatalogSame
 ACTION_CONSTRAINT Emit
 CHECK_DEADLOCK FALSE
